@@ -49,7 +49,7 @@ ENTRIES = {
 def params(ck):
     # chunks, runs per chunk, ops, universe length, random subsets per crash point, and the number of
     # unsynced writes up to which every survivor subset is enumerated instead of sampled
-    return (1, 10, 12, 14, 3, 5) if ck.quick else (5, 4, 30, 24, 4, 7)
+    return (1, 10, 14, 14, 3, 5) if ck.quick else (5, 4, 30, 24, 4, 7)
 
 
 def big_params(ck):
@@ -164,7 +164,8 @@ def run(ck):
             ck.cov["samples"] += p.get("samples", [])[:3]
         for k in ("images_reopened", "journal_entries", "state_changing_ops", "ops", "full_syncs", "eventual_syncs",
                   "points_with_all_subsets", "points_with_sampled_subsets", "big_inserts_committed",
-                  "journal_entries_in_big_inserts", "failed_ops", "retried_failed_ops", "panics"):
+                  "journal_entries_in_big_inserts", "failed_ops", "retried_failed_ops", "failed_then_ok_remove",
+                  "failed_then_ok_mark", "failed_then_ok_meta", "panics"):
             extra[k] = extra.get(k, 0) + s["extra"].get(k, 0)
         if s["extra"].get("panics"):
             ck.violation({"kind": "panic"}, f"a store operation panicked: {s['extra'].get('last_panic')}",
@@ -177,8 +178,10 @@ def run(ck):
         if extra["state_changing_ops"] < chunks * runs * 2 or ck.cov["distinct_nontrivial"] < 50:
             raise vf.ToolError("vacuity: the recorded histories contain too few crash points inside "
                                "state-changing operations")
-        if extra["failed_ops"] < chunks * runs or extra["retried_failed_ops"] < max(1, chunks * runs // 4):
-            raise vf.ToolError("vacuity: too few failing operations / retries of failed operations in the histories")
+        again = [extra["failed_then_ok_remove"], extra["failed_then_ok_mark"], extra["failed_then_ok_meta"]]
+        if extra["failed_ops"] < chunks * runs or min(again) < 1 or sum(again) < 6:
+            raise vf.ToolError("vacuity: too few failing operations, or operations that failed first and succeeded "
+                               "later on the same store handle, in the histories")
         if extra["big_inserts_committed"] < bruns or extra["journal_entries_in_big_inserts"] < 100 * bruns:
             raise vf.ToolError("vacuity: no crash points inside inserts of more than 256 headers")
     ck.level = "model_checking"
